@@ -203,13 +203,16 @@ theorem nr_step (s s' : LS) (e : Ev) (h : NR s) (hs : s.step e = some s') : NR s
     split at hs
     · split at hs
       · split at hs
-        · cases hs; exact h
-        · rename_i m _
-          split at hs
+        · rename_i od _
+          cases hs; exact nr_upd _ h _ _ (by intro h1; exact h od h1)
+        · split at hs
           · cases hs; exact h
-          · split at hs
-            · cases hs; exact nr_upd _ h _ _ (by intro h1; exact h m h1)
+          · rename_i m _
+            split at hs
             · cases hs; exact h
+            · split at hs
+              · cases hs; exact nr_upd _ h _ _ (by intro h1; exact h m h1)
+              · cases hs; exact h
       · cases hs
     · cases hs
   | next i =>
